@@ -1010,6 +1010,10 @@ class Ev:
         while e is not None:
             if name in e:
                 return e[name]
+            cb = e.get("__clsbody__")
+            if cb is not None and name in cb.class_assigns and cb.class_assigns[name] is not None:
+                # a name of the class body used in a later statement of that body
+                return self.ev(cb.class_assigns[name], {"__mod__": cb.mod, "__clsbody__": cb}, cb.mod)
             e = e.get("__outer__")
         if name in mod.classes:
             return ClassRef(mod.classes[name])
@@ -1063,7 +1067,7 @@ class Ev:
                     owner, fn = got
                     return self.bind(fn, owner, v)
                 if attr in c.class_assigns and c.class_assigns[attr] is not None:
-                    return self.ev(c.class_assigns[attr], {"__mod__": c.mod}, c.mod)
+                    return self.ev(c.class_assigns[attr], {"__mod__": c.mod, "__clsbody__": c}, c.mod)
             if attr.startswith("_") and attr[1:] in v.fields:
                 return v.fields[attr[1:]]
             if "_" + attr in v.fields:
@@ -1111,7 +1115,7 @@ class Ev:
                 owner, fn = got
                 return self.bind(fn, owner, None, via_class=v)
             if attr in c.class_assigns and c.class_assigns[attr] is not None:
-                return self.ev(c.class_assigns[attr], {"__mod__": c.mod}, c.mod)
+                return self.ev(c.class_assigns[attr], {"__mod__": c.mod, "__clsbody__": c}, c.mod)
             raise AnalysisError("class attribute %s.%s is not modelled" % (c.name, attr))
         if isinstance(v, EnumMember):
             if attr == "name":
@@ -1276,6 +1280,19 @@ class Ev:
                 return
             if not isinstance(v, ListV):
                 raise AnalysisError("unpacking %r at line %d" % (v, target.lineno))
+            stars = [i for i, t in enumerate(target.elts) if isinstance(t, ast.Starred)]
+            if len(stars) == 1:
+                # a, *rest, z = items
+                i = stars[0]
+                n_after = len(target.elts) - i - 1
+                if len(v.items) < len(target.elts) - 1:
+                    raise _Raise(target, "not enough values to unpack", "ValueError")
+                for t, x in zip(target.elts[:i], v.items[:i]):
+                    self.assign(t, x, env, mod)
+                self.assign(target.elts[i].value, ListV(list(v.items[i : len(v.items) - n_after])), env, mod)
+                for t, x in zip(target.elts[i + 1 :], v.items[len(v.items) - n_after :] if n_after else []):
+                    self.assign(t, x, env, mod)
+                return
             if len(v.items) != len(target.elts):
                 raise _Raise(target, "cannot unpack %d values into %d names" % (len(v.items), len(target.elts)))
             for t, x in zip(target.elts, v.items):
@@ -1517,9 +1534,23 @@ class Ev:
             raise AnalysisError("format string is not constant at line %d" % node.lineno)
         args = list(arg.items) if isinstance(arg, TupV) else [arg]
         out, text, i, k = [], fmt.text(), 0, 0
+        mapping = arg if isinstance(arg, DictV) else None
         while i < len(text):
             if text[i] == "%" and i + 1 < len(text):
                 c = text[i + 1]
+                if c == "(" and mapping is not None:
+                    j = text.find(")", i)
+                    if j < 0 or j + 1 >= len(text) or text[j + 1] not in "sd":
+                        raise AnalysisError("format directive %s" % text[i : i + 12])
+                    key = text[i + 2 : j]
+                    if key not in mapping.d:
+                        raise _Raise(node, "KeyError %r in format mapping" % key, "KeyError")
+                    v = self.to_str(mapping.d[key])
+                    if isinstance(v, Frag):
+                        return v
+                    out += list(v.pieces)
+                    i = j + 2
+                    continue
                 if c == "%":
                     out.append(("lit", "%"))
                 elif c in "sd":
@@ -1536,7 +1567,7 @@ class Ev:
                 continue
             out.append(("lit", text[i]))
             i += 1
-        if k != len(args):
+        if mapping is None and k != len(args):
             raise _Raise(node, "not all arguments converted during string formatting")
         return Str(out)
 
